@@ -179,3 +179,29 @@ Qed.
 Corollary schmidt_transpose_arr n (a : nat -> cx R) :
   schmidt_K ROps n (mag_matrix n (transpose_arr n a)) = schmidt_K ROps n (mag_matrix n a).
 Proof. rewrite (schmidt_K_ext n _ _ (mag_matrix_transpose n a)). apply schmidt_transpose. Qed.
+
+(* ---- the extremes stated on the flat complex array *)
+(* separable: a[r*n + c] = u_r * v_c (complex), not identically zero *)
+Theorem schmidt_separable_complex n (u v : nat -> cx R) (a : nat -> cx R) :
+  (forall r c, (r < n)%nat -> (c < n)%nat -> a (r * n + c)%nat = cmul ROps (u r) (v c)) ->
+  (exists r c, (r < n)%nat /\ (c < n)%nat /\ a (r * n + c)%nat <> (0, 0)) ->
+  schmidt_K ROps n (mag_matrix n a) = 1.
+Proof.
+  intros Ha (r & c & Hr & Hc & Hne).
+  rewrite (schmidt_K_ext n (mag_matrix n a) (outer (fun r => cmod (u r)) (fun c => cmod (v c)))).
+  - apply schmidt_separable. exists r, c. repeat split; try assumption.
+    unfold outer. rewrite <- cmod_mul, <- (Ha r c Hr Hc). intros H0. apply Hne. apply cmod_zero_iff. exact H0.
+  - intros i j Hi Hj. unfold mag_matrix, mat_of, outer. rewrite (Ha i j Hi Hj). apply cmod_mul.
+Qed.
+
+(* equal moduli m <> 0 on a permuted diagonal, arbitrary phases, zero elsewhere *)
+Theorem schmidt_perm_diag_complex n p q m (a : nat -> cx R) :
+  is_perm n p q -> (0 < n)%nat -> m <> 0 ->
+  (forall r c, (r < n)%nat -> (c < n)%nat -> cmod (a (r * n + c)%nat) = if Nat.eqb c (p r) then m else 0) ->
+  schmidt_K ROps n (mag_matrix n a) = INR n.
+Proof.
+  intros Hp Hn Hm Ha.
+  rewrite (schmidt_K_ext n (mag_matrix n a) (perm_diag p (fun _ => m))).
+  - apply (schmidt_perm_diag n p q m Hp Hn Hm).
+  - intros i j Hi Hj. unfold mag_matrix, mat_of, perm_diag. apply Ha; assumption.
+Qed.
